@@ -160,8 +160,30 @@ VTzif(e) ==
 VResolve(e) == IF Has(e.r, "panic") THEN {"panic"} ELSE IF Has(e.r, "arg") THEN {"generator-error"}
                ELSE ResolveTags(e.a.s, e.a.dirs, e.a.vfs, e.r)
 
+\* ---- C10: the reference implementations are bound to the same specification ----
+\* an observation [off, des, dst] of glibc / zoneinfo at an instant given on the file's own scale (leap count for right/ files)
+VRef(e) ==
+  LET tt == WToCDS(e.a.t)
+      u == IF e.a.scale = "leap" THEN ToUnix(vZone.lp, tt) ELSE tt
+      ta == IF e.a.scale = "leap"
+            THEN (IF NTr(vZone) > 0 /\ ~CLe(LastT(vZone), tt) THEN [types |-> {TableTypeAtLeap(vZone, tt)}, err |-> {}] ELSE TypeAt(vZone, u))
+            ELSE TypeAt(vZone, tt)
+      obs == e.r.ok
+  IN IF ta.types = {} THEN {}                        \* the library reports no type there (C03): nothing to compare
+     ELSE IF \E ty \in ta.types : ty.off = obs.off /\ ty.des = obs.des /\ (obs.dst = -1 \/ obs.dst = ty.dst) THEN {}
+     ELSE {"C10-reference-disagrees-with-spec"}
+\* the set of instants a reference implies for a local time = the preimage of the zone's clock
+VRefMk(e) ==
+  LET a == e.a L == UnixOf(a.y, a.mo, a.d, a.h, a.mi, a.s)
+      mine == {CDSToW(p[1]) : p \in ValidInstants(vZone, L)}
+      theirs == {e.r.ok.set[i] : i \in 1..Len(e.r.ok.set)}
+  IN IF \E u \in Candidates(vZone, L) : ~ClockAt(vZone, u)[1] THEN {}     \* beyond an expired table: out of domain
+     ELSE IF mine = theirs THEN {} ELSE {"C10-reference-mktime-disagrees-with-spec"}
+
 Verdict(e) ==
   CASE e.op = "gmtime" -> VGmtime(e)
+    [] e.op = "ref" -> VRef(e)
+    [] e.op = "refmk" -> VRefMk(e)
     [] e.op = "resolve" -> VResolve(e)
     [] e.op = "tzif" -> VTzif(e)
     [] e.op = "tzstring" -> VTzString(e)
